@@ -1354,6 +1354,7 @@ func Main(prop string) {
 		add("server/all/d4", "server", all, 4, true, 0, -1)
 		add("server/all/d6", "server", all, 6, true, -1, 0)
 		add("server/guest/d3/k1", "server", sel("guest/none"), 3, false, 1, 1)
+		add("server/guest/d3/k2", "server", sel("guest/none"), 3, false, -1, 2)
 		add("server-inproc/guest+plain/d3", "server-inproc", sel("guest/none", "plain/none+tls"), 3, false, 0, -1)
 		add("server-inproc/all/d4", "server-inproc", all, 4, false, -1, 0)
 	default: // C03, C07
@@ -1362,6 +1363,7 @@ func Main(prop string) {
 		add("server/all/d6", "server", all, 6, true, -1, 0)
 		add("channel/all/d6", "channel", all, 6, true, -1, 0)
 		add("channel/guest+plain/d3/k1", "channel", sel("guest/none", "plain/none+tls"), 3, false, -1, 1)
+		add("server/guest/d3/k2", "server", sel("guest/none"), 3, false, -1, 2)
 		add("server-inproc/guest+plain/d3", "server-inproc", sel("guest/none", "plain/none+tls"), 3, false, 0, -1)
 		add("server-inproc/all/d4", "server-inproc", all, 4, false, -1, 0)
 	}
